@@ -269,8 +269,15 @@ def ast_to_py(v, depth=0):
 
 
 def _stage_quick(job):
-    """Stage 1: quantifier-free hypotheses only, then plain z3 with a short budget."""
-    oid, text, timeout_ms, input_names, use_cvc5, ground = job
+    """Stage 1: quantifier-free hypotheses only, then plain z3 with a short budget.  An obligation that cvc5 discharged
+    on the last baseline run is given to cvc5 first (an ordering hint only: every stage still follows if it fails)."""
+    oid, text, timeout_ms, input_names, use_cvc5, ground = job[:6]
+    prefer = job[6] if len(job) > 6 else None
+    if prefer == "cvc5" and use_cvc5:
+        c = _cvc5_run({"oid": oid, "verdict": "unknown", "solver": "cvc5", "reason": "", "model": None, "time": 0},
+                      text, min(4000, timeout_ms))
+        if c["verdict"] == "unsat":
+            return c
     if ground is not None:
         g = _z3_run(oid, ground, 1500, input_names)
         if g["verdict"] == "unsat":
@@ -382,8 +389,10 @@ def _pmap(fn, jobs, workers):
         return list(ex.map(fn, jobs, chunksize=1))
 
 
-def solve_all(obligations, timeout_ms=10000, workers=None, use_cvc5=True):
-    """Discharge obligations in parallel, in three stages of increasing cost. Returns {oid: result-dict}."""
+def solve_all(obligations, timeout_ms=10000, workers=None, use_cvc5=True, prefer=None):
+    """Discharge obligations in parallel, in three stages of increasing cost. Returns {oid: result-dict}.
+    prefer: {oid: "cvc5"} ordering hints (which solver discharged the obligation on the baseline run)."""
+    prefer = prefer or {}
     workers = workers or 16
     by_oid = {ob.oid: ob for ob in obligations}
     texts, names = {}, {}
@@ -391,7 +400,7 @@ def solve_all(obligations, timeout_ms=10000, workers=None, use_cvc5=True):
     for ob in obligations:
         texts[ob.oid] = to_smt2(ob)
         names[ob.oid] = [str(t) for t, _ in ob.inputs.values()] if ob.inputs else []
-        jobs.append((ob.oid, texts[ob.oid], timeout_ms, names[ob.oid], use_cvc5, to_smt2_ground(ob)))
+        jobs.append((ob.oid, texts[ob.oid], timeout_ms, names[ob.oid], use_cvc5, to_smt2_ground(ob), prefer.get(ob.oid)))
     results = {r["oid"]: r for r in _pmap(_stage_quick, jobs, workers)}
     if not use_cvc5:
         return results
